@@ -12,6 +12,9 @@ Numerical support / falsifier (on the implementation, independent oracles):
     doublings Qd(2t) = Phi(t) Qd(t) Phi(t)^T + Qd(t), Phi(2t) = Phi(t)^2 -- in exact rational
     arithmetic from the same binary64 inputs: pure fractions.Fraction for tiny cases, and 512-bit
     dyadic rationals (each product rounded to a multiple of 2^-512) otherwise;
+  * every entry of Qd relative to the magnitude of ITS OWN rows (tolerance eps (1 + |X|) max(W_ii, W_jj) with
+    W_ii the majorant (|exp(F s)| |Q| |exp(F^T s)| dt)_ii, not the norm of Qd): badly scaled Q (block diagonal with
+    12..20 decades between the blocks, zero blocks) must keep the weak noise; the same for the assembly cases;
   * symmetry and PSD of Qd, zero step exactly (Phi == I, Qd == 0 bit for bit);
   * linearity in Q: Qd(2^k Q) == 2^k Qd(Q) and Phi independent of Q (Q spans 1e-20 .. 1e6; every tolerance
     is homogeneous of degree 1 in Q, so a zero or mis-scaled Qd for a tiny Q is a violation);
@@ -53,6 +56,9 @@ RULE = ("translator: matrix-granularity trace of kalman.compute_process_matrices
 
 EPS = 2.0 ** -52
 MARGIN = 2.0e5
+MARGIN_E = 2.0e5          # entrywise: in units of eps (1 + |X|) (|exp(F s)| |Q| |exp(F^T s)| dt)_ij
+FLOOR2 = 1.0e9            # entrywise floor (eps (1+|X|))^2 max W: products of two rounding-level entries of the
+                          # exponential at structurally zero positions (observed up to 5e6 in these units)
 TRUNC_MARGIN = 100.0       # margin on the (deterministic) Pade truncation term
 PREC = 512
 ONE = 1 << PREC
@@ -182,7 +188,58 @@ SEQ_OPS = ['scaleF', 'zeroF', 'scaleQ', 'otherdt', 'same', 'negF']
 KINDS = ['stable', 'unstable', 'nilpotent', 'zero', 'skew', 'random']
 
 
+def make_blockcase(rng, idx):
+    """badly scaled noise: F block diagonal (2 or 3 blocks, optionally with coupling FROM the weakly driven block INTO
+    the strongly driven one only), Q block diagonal with 12..20 decades between the blocks, zero blocks allowed.
+    Each entry of Qd is then compared RELATIVE to its own magnitude."""
+    nb = rng.choice([2, 2, 3])
+    sizes = [rng.randint(1, 3) for _ in range(nb)]
+    n = sum(sizes)
+    offs = np.cumsum([0] + sizes)
+    dt = rng.choice([rng.uniform(0.01, 10), 10 ** rng.uniform(-3, 1)])
+    F = np.zeros((n, n))
+    Q = np.zeros((n, n))
+    top = rng.uniform(-6, 3)
+    exps = [top] + [top - rng.uniform(12, 20) * (k if rng.random() < 0.7 else 1) for k in range(1, nb)]
+    order = list(range(nb))
+    rng.shuffle(order)
+    for k, b in enumerate(order):
+        lo, hi = offs[b], offs[b + 1]
+        sz = hi - lo
+        kind = rng.choice(['zero', 'nilpotent', 'stable', 'random'])
+        A = _randn(rng, sz, sz)
+        if kind == 'zero':
+            A = np.zeros((sz, sz))
+        elif kind == 'nilpotent':
+            A = np.triu(A, 1)
+        elif kind == 'stable':
+            A = A - (np.linalg.eigvals(A).real.max() + rng.uniform(0.1, 1)) * np.eye(sz)
+        na = float(np.abs(A).sum(axis=0).max())
+        if na * dt > 3.0:
+            A *= 3.0 / (na * dt)
+        F[lo:hi, lo:hi] = A
+        if not (k > 0 and rng.random() < 0.2):                 # zero noise block
+            rk = rng.randint(1, sz)
+            g = _randn(rng, sz, rk)
+            q = g @ g.T
+            Q[lo:hi, lo:hi] = q * (10 ** exps[k] / float(np.abs(q).max()))
+    if rng.random() < 0.5:          # the weakly driven block feeds the strongest one, never the other way round
+        s_, w_ = order[0], order[-1]
+        F[offs[s_]:offs[s_ + 1], offs[w_]:offs[w_ + 1]] = _randn(rng, sizes[s_], sizes[w_]) * rng.uniform(0, 1) / max(dt, 1.0)
+    Q = (Q + Q.T) / 2
+    k = rng.randint(1, 4)
+    cuts = sorted(rng.random() for _ in range(k - 1))
+    parts = [(b_ - a_) * dt for a_, b_ in zip([0.0] + cuts, cuts + [1.0])]
+    a = _randn(rng, n, n)
+    return dict(idx=idx, n=n, kind='blocks', rankQ=int(np.linalg.matrix_rank(Q)), dclass='uniform', F=F, Q=Q,
+                dt=float(dt), parts=parts, P0=a @ a.T, order=rng.choice(['C', 'F']),
+                qscale=float(np.abs(Q).max()) or 1e-300, lin=2.0 ** rng.randint(-20, 20), intF=False, intdt=False,
+                seq=None)
+
+
 def make_case(rng, idx, nmax):
+    if rng.random() < 0.12:
+        return make_blockcase(rng, idx)
     n = rng.choice([k for k in (1, 1, 2, 2, 3, 3, 4, 5, 6, 8, 12, 16, 24) if k <= nmax])
     kind = rng.choice(KINDS)
     F = _randn(rng, n, n)
@@ -312,7 +369,14 @@ def _scale(F, Q, dt):
     # ... and the dropped term must actually matter (above 10 rounding units); otherwise it is not used
     regime = bool(regime and term * max(n11, 1.0) > 10.0 * rounding)
     trunc = term * max(n11, 1.0) * TRUNC_MARGIN / MARGIN if regime else 0.0      # in units of MARGIN
-    return dict(bPhi=u + 1e-300, bQd=rounding + trunc, nx=nx, regime=regime, rounding=rounding)
+    # entry by entry: what each entry of Qd is summed from, |exp(F s)| |Q| |exp(F^T s)| over the step (majorant)
+    Ea = np.abs(sla.expm(np.abs(np.asarray(F, float)) * dt))
+    Wd = dt * np.einsum('ik,kl,il->i', Ea, np.abs(np.asarray(Q, float)), Ea)      # majorant of the variances
+    # an off-diagonal entry is a sum of products of the two rows of E12 and E11: its rounding is that of the
+    # LARGER of the two variances (positions that are structurally zero in exp(F s) are only zero to rounding)
+    W = np.maximum.outer(Wd, Wd) if n else np.zeros((0, 0))
+    return dict(bPhi=u + 1e-300, bQd=rounding + trunc, nx=nx, regime=regime, rounding=rounding,
+                W=W, uW=EPS * (1 + nx), trunc=trunc)
 
 
 def check_case(c, oracle='auto', verbose=False, stats=None):
@@ -370,6 +434,14 @@ def check_case(c, oracle='auto', verbose=False, stats=None):
     cmp(f"Phi != exp(F dt) ({oracle} oracle)", float(np.abs(Phi - Pr).max(initial=0.0)), slack * sc['bPhi'])
     cmp(f"Qd != integral of exp(F u) Q exp(F^T u) ({oracle} oracle)", float(np.abs(Qd - Qr).max(initial=0.0)),
         slack * sc['bQd'])
+    # every entry relative to the magnitude of ITS OWN rows (W_ij = max of the two variance majorants), not to the
+    # norm of Qd: a weakly driven block next to a strongly driven one must keep its noise
+    # floor: a state that no noise reaches gets the product of two rounding-level entries, (eps |E|)^2 times the
+    # largest variance -- second order, 22+ decades below it
+    Wt = slack * (MARGIN_E * sc['uW'] * sc['W'] + MARGIN * sc['trunc']) \
+        + FLOOR2 * sc['uW'] ** 2 * float(sc['W'].max(initial=0.0)) + 1e-300
+    cmp(f"Qd != integral of exp(F u) Q exp(F^T u) entry by entry, relative to the magnitude of each entry "
+        f"({oracle} oracle), in units of the entrywise tolerance", float((np.abs(Qd - Qr) / Wt).max(initial=0.0)), 1.0 / MARGIN)
     # symmetric, PSD
     cmp("Qd not symmetric", float(np.abs(Qd - Qd.T).max(initial=0.0)), sc['bQd'])
     if n:
@@ -603,6 +675,12 @@ def check_assembly(c, verbose=False, stats=None):
         3.0 * MARGIN * sc['bPhi'])
     cmp("assembly: Qd != Gauss-Legendre quadrature of exp(F s) Qc exp(F^T s) of the own continuous model",
         float(np.abs(Qd - Qq).max()), 3.0 * MARGIN * sc['bQd'])
+    # (c) the same entry by entry, relative to the magnitude of the rows of each entry: the weakly driven sensor
+    #     states (bias random walk 12+ decades below the accelerometer noise) must keep their noise
+    Wt = 3.0 * (MARGIN_E * sc['uW'] * sc['W'] + MARGIN * sc['trunc']) \
+        + FLOOR2 * sc['uW'] ** 2 * float(sc['W'].max(initial=0.0)) + 1e-300
+    cmp("assembly: Qd != Gauss-Legendre quadrature entry by entry, relative to the magnitude of each entry, in units "
+        "of the entrywise tolerance", float((np.abs(Qd - Qq) / Wt).max(initial=0.0)), 1.0)
     return fails, worst[0]
 
 # ---------------------------------------------------------------------------
